@@ -234,6 +234,21 @@ CHECKS = {
         technique='solver-enumerated bounded exploration (z3 DFS) with native execution of the real code on real .xlsx files',
         engine='E2',
     ),
+    'C07': dict(
+        category='other',
+        text=('Bounded exploration of payload texts (sequences of <= 2 (quick) / 3 symbols of a 19-symbol adversarial alphabet: quotes, backslash, newline, '
+              '# { } %, brackets, wildcards, call-syntax attack strings) x 8 placement contexts (constant cell, plain literal, criterion literal, ">"& '
+              'literal, SEARCH argument, DATEDIF unit, two-pair COUNTIFS, sheet title) x safety check on/off, enumerated by z3 and executed natively '
+              'through the real Parser on real .xlsx files. Oracle: the generated module compiles and, with string constants blanked, has the same '
+              'AST as the module for a benign twin (=> the payload reached string constants only); constant cells / plain literals evaluate to '
+              'exactly the payload; a canary in builtins is never called.'),
+        design_ref='DESIGN.md section 6 / C07',
+        note=('the solver is the exhaustive enumerator of the stated finite space; payloads longer than the bound, bare double quotes inside formula '
+              'literals (Excel doubles them) and illegal sheet titles are outside the claim; one known finding (wildcard characters in a plain '
+              'literal are turned into their regex form) is matched by context + character.'),
+        technique='solver-enumerated bounded exploration (z3 DFS) with native execution; AST skeleton comparison of generated modules',
+        engine='E2',
+    ),
 }
 
 NOT_YET = {}   # filled below for every property without a check
